@@ -105,6 +105,11 @@ structure Options where
   files : RegexSet
   items : RegexSet
 
+/-- the `TypeKind`s auto-allowlisted when allow-listing is not recursive (by `Debug` name) -/
+def autoAllowlistedKind (k : String) : Bool :=
+  k ∈ ["Void", "NullPtr", "Int", "Float", "Complex", "Array", "Vector", "Pointer", "Reference",
+       "Function", "ResolvedTypeRef", "Opaque", "TypeParam"]
+
 /-- `BindgenContext::is_stdint_type` -/
 def isStdintType (sizeTIsUsize : Bool) (name : String) : Bool :=
   if name ∈ ["int8_t", "uint8_t", "int16_t", "uint16_t", "int32_t", "uint32_t", "int64_t",
